@@ -130,6 +130,7 @@ struct Inner {
     extra: serde_json::Map<String, J>,
     caps: Vec<String>,
     exhaustive: bool,
+    machinery: Vec<String>,
 }
 
 impl Recorder {
@@ -166,6 +167,14 @@ impl Recorder {
         i.exhaustive = false;
         if i.caps.len() < 50 {
             i.caps.push(what);
+        }
+    }
+    /// A failure of the machinery itself (e.g. a replay that does not reproduce its log):
+    /// the run ends with exit code 2 and no verdict.
+    pub fn machinery_error(&self, what: String) {
+        let mut i = self.inner.lock().unwrap();
+        if i.machinery.len() < 20 {
+            i.machinery.push(what);
         }
     }
     pub fn not_exhaustive(&self) {
@@ -292,6 +301,12 @@ impl Recorder {
             wall,
             i.exhaustive && i.caps.is_empty()
         );
+        if !i.machinery.is_empty() {
+            for m in &i.machinery {
+                println!("MACHINERY ERROR: {m}");
+            }
+            return 2;
+        }
         if new_violations > 0 {
             1
         } else {
